@@ -243,14 +243,24 @@ theorem pass_valid {T : Target} {opts : List OptInst} (c : Config) (hv : AllVali
     pass T opts c = .ok (afterPass T opts c) :=
   pass_ok c (fun o ho => failsOn_none_of_valid (hv o ho))
 
-theorem passes_valid {ts : List Target} {opts : List OptInst} (c : Config) (hv : AllValid opts) :
+theorem pass_validOn {T : Target} {opts : List OptInst} (c : Config)
+    (h : ∀ o ∈ opts, failsOn T o = none) : pass T opts c = .ok (afterPass T opts c) :=
+  pass_ok c h
+
+theorem passes_valid {ts : List Target} {opts : List OptInst} (c : Config) (hv : ValidOn ts opts) :
     passes ts opts c = .ok (afterPasses ts opts c) := by
   induction ts generalizing c with
   | nil => rfl
   | cons T ts ih =>
     unfold passes
-    rw [List.foldlM_cons, pass_valid c hv]
-    exact ih (afterPass T opts c)
+    rw [List.foldlM_cons, pass_validOn c (hv T (by simp))]
+    exact ih (afterPass T opts c) (fun T' hT' => hv T' (by simp [hT']))
+
+theorem validOn_of_allValid {opts : List OptInst} (ts : List Target) (hv : AllValid opts) : ValidOn ts opts :=
+  fun _ _ o ho => failsOn_none_of_valid (hv o ho)
+
+theorem validOnB_iff (ts : List Target) (opts : List OptInst) : validOnB ts opts = true ↔ ValidOn ts opts := by
+  simp [validOnB, ValidOn, List.all_eq_true, Option.isNone_iff_eq_none]
 
 end Scrapli.Options
 
@@ -379,20 +389,23 @@ theorem genericReached_nodup (opts : List OptInst) (c : Config) : (genericReache
     rcases hm ha with h | h | h | h | h | h <;> simp [h]
 
 /-- `generic.NewDriver` with no failing option: explicit result -/
-theorem constructGeneric_valid {opts : List OptInst} (c : Config) (hv : AllValid opts) :
+theorem constructGeneric_valid {opts : List OptInst} (c : Config) (hv : ValidOn (genericReached opts c) opts) :
     constructGeneric opts c = .ok
       (afterPasses ([.transport_Args] ++
           transportTargets (afterPass .transport_Args opts
             (fillLogger .generic_Driver_Logger (afterPass .generic_Driver opts c))) ++ [.channel_Channel]) opts
         (fillLogger .generic_Driver_Logger (afterPass .generic_Driver opts c))) := by
   unfold constructGeneric
-  rw [pass_valid c hv]
+  rw [pass_validOn c (hv .generic_Driver (by simp [genericReached]))]
   show (pass .transport_Args opts _ >>= _) = _
-  rw [pass_valid _ hv]
+  rw [pass_validOn _ (hv .transport_Args (by simp [genericReached]))]
   show (passes _ opts _ >>= _) = _
-  rw [passes_valid _ hv]
+  rw [passes_valid _ (fun T hT => hv T (by
+    unfold genericReached
+    simp only [List.mem_append]
+    exact Or.inl (Or.inr hT)))]
   show pass .channel_Channel opts _ = _
-  rw [pass_valid _ hv]
+  rw [pass_validOn _ (hv .channel_Channel (by simp [genericReached]))]
   congr 1
   simp only [afterPasses_append]
   rfl
@@ -405,7 +418,7 @@ open Scrapli Scrapli.Gen.Options
 /-- `generic.NewDriver` with no failing option, field by field: every setting of every object that
 is built is what the options naming it leave there, in list order, starting from the default; all
 other settings keep their default. The logger additionally defaults to a no-op instance. -/
-theorem constructGeneric_field {opts : List OptInst} (c : Config) (hv : AllValid opts) :
+theorem constructGeneric_field {opts : List OptInst} (c : Config) (hv : ValidOn (genericReached opts c) opts) :
     ∃ c', constructGeneric opts c = .ok c' ∧
       (∀ f, f ≠ .generic_Driver_Logger →
         c' f = if f.target ∈ genericReached opts c then fieldAfter f.target opts f (c f) else c f) ∧
@@ -453,7 +466,7 @@ theorem pairwiseB_iff {α : Type} (r : α → α → Bool) (l : List α) :
 theorem allValidB_iff (opts : List OptInst) : allValidB opts = true ↔ AllValid opts := by
   simp [allValidB, AllValid, List.all_eq_true, Option.isNone_iff_eq_none]
 
-theorem constructGeneric_eq_spec {opts : List OptInst} (c : Config) (hv : AllValid opts) :
+theorem constructGeneric_eq_spec {opts : List OptInst} (c : Config) (hv : ValidOn (genericReached opts c) opts) :
     constructGeneric opts c = .ok (specGeneric opts c) := by
   obtain ⟨c', h, h1, h2⟩ := constructGeneric_field c hv
   rw [h]
@@ -491,12 +504,13 @@ theorem specGeneric_unreached {opts : List OptInst} {c : Config} {f : Field}
     · exact this.2.2 h
   simp [hl, hn]
 
-theorem constructNetwork_eq_spec {opts : List OptInst} (c : Config) (hv : AllValid opts) :
+theorem constructNetwork_eq_spec {opts : List OptInst} (c : Config)
+    (hv : ValidOn (genericReached opts c ++ [.network_Driver]) opts) :
     constructNetwork opts c = specNetwork opts c := by
   unfold constructNetwork
-  rw [constructGeneric_eq_spec c hv]
+  rw [constructGeneric_eq_spec c (fun T hT => hv T (List.mem_append_left _ hT))]
   show (pass .network_Driver opts _ >>= _) = _
-  rw [pass_valid _ hv]
+  rw [pass_validOn _ (hv .network_Driver (by simp))]
   have e1 : afterPass .network_Driver opts (specGeneric opts c) .network_Driver_DefaultDesiredPriv =
       fieldAfter .network_Driver opts .network_Driver_DefaultDesiredPriv (c .network_Driver_DefaultDesiredPriv) := by
     unfold afterPass
@@ -525,13 +539,13 @@ theorem constructNetwork_eq_spec {opts : List OptInst} (c : Config) (hv : AllVal
         exact afterPass_other opts _ ht
 
 theorem constructNetconf_eq_spec {opts : List OptInst} (c : Config)
-    (hv : AllValid (opts ++ [netconfConnectionOpt])) :
+    (hv : ValidOn (genericReached (opts ++ [netconfConnectionOpt]) c ++ [.netconf_Driver]) (opts ++ [netconfConnectionOpt])) :
     constructNetconf opts c = .ok (specNetconf opts c) := by
   unfold constructNetconf
   simp only []
-  rw [constructGeneric_eq_spec c hv]
+  rw [constructGeneric_eq_spec c (fun T hT => hv T (List.mem_append_left _ hT))]
   show (pass .netconf_Driver _ _ >>= _) = _
-  rw [pass_valid _ hv]
+  rw [pass_validOn _ (hv .netconf_Driver (by simp))]
   show Except.ok _ = _
   congr 1
   funext f
